@@ -35,7 +35,7 @@ var verdictName = map[int]string{bfe_module.BfeHandlerFinish: "Finish", bfe_modu
 	bfe_module.BfeHandlerResponse: "Response", bfe_module.BfeHandlerClose: "Close"}
 
 func TestC48(t *testing.T) {
-	rec := ev.New("C48", "4 harness-registered filters per callback point (HandleAccept, BeforeLocation, FoundProduct, AfterLocation, Forward, ReadResponse, RequestFinish) on a real in-process BFE; per request one point gets a generated verdict chain (GoOn* then a verdict legal for that point's handler type, followed by further non-GoOn verdicts that must never run); oracle: invocation log per point is slots 0..first-non-GoOn in order, and the client/backends observe the documented effect of that verdict. non-trivial: chain with a non-GoOn verdict not in the last slot; distinct by point+chain")
+	rec := ev.New("C48", "4 harness-registered filters per callback point (HandleAccept, BeforeLocation, FoundProduct, AfterLocation, Forward, ReadResponse, RequestFinish) on a real in-process BFE; per request (bodyless GET, POST with body, POST with Expect: 100-continue) one point gets a generated verdict chain (GoOn* then a verdict legal for that point's handler type, followed by further non-GoOn verdicts that must never run) and optionally a second point (HandleRequestFinish) returns Finish at a generated slot; oracle: invocation log per point is slots 0..first-non-GoOn in order, and the client/backends observe the documented effect of that verdict. non-trivial: chain with a non-GoOn verdict not in the last slot; distinct by point+chain")
 	w := startWorld(t, 1, sys.Options{AfterInit: installFilters}, nil)
 	n := 0
 	rapid.Check(t, func(rt *rapid.T) {
@@ -72,13 +72,28 @@ func TestC48(t *testing.T) {
 			names = append(names, verdictName[v])
 		}
 		pname := bfe_module.CallbackPointName(point)
+		// the request: bodyless GET, POST with a body, or POST announcing its body with Expect: 100-continue
+		reqKind := rapid.SampledFrom([]string{"get", "get", "post", "post-expect"}).Draw(rt, "request")
+		// optionally a second point cooperates: a Finish verdict somewhere in the HandleRequestFinish chain
+		rfStop := -1
+		if pi >= 0 && point != bfe_module.HandleRequestFinish && rapid.IntRange(0, 2).Draw(rt, "finish-at-requestfinish") == 0 {
+			rfStop = rapid.IntRange(0, nSlots-1).Draw(rt, "rf-stopslot")
+		}
 		nontrivial := stop < nSlots-1
-		rec.Case(pname+":"+strings.Join(names, ","), nontrivial, "point:"+pname, "verdict:"+verdictName[verdict])
-		rec.Sample(map[string]any{"point": pname, "chain": names})
-		wit := map[string]any{"point": pname, "chain": names, "target": target}
+		rec.Case(fmt.Sprintf("%s:%s|%s|rf%d", pname, strings.Join(names, ","), reqKind, rfStop), nontrivial, "point:"+pname, "verdict:"+verdictName[verdict], "request:"+reqKind, fmt.Sprintf("second-point-finish:%v", rfStop >= 0))
+		rec.Sample(map[string]any{"point": pname, "chain": names, "request": reqKind, "finish_slot_at_HandleRequestFinish": rfStop})
+		wit := map[string]any{"point": pname, "chain": names, "target": target, "request": reqKind, "finish_slot_at_HandleRequestFinish": rfStop}
 
 		if pi >= 0 {
 			s.V[point] = chain
+		}
+		if rfStop >= 0 {
+			rf := make([]int, rfStop+1)
+			for i := range rf {
+				rf[i] = bfe_module.BfeHandlerGoOn
+			}
+			rf[rfStop] = bfe_module.BfeHandlerFinish
+			s.V[bfe_module.HandleRequestFinish] = rf
 		}
 		hub.set(target, s)
 		defer hub.del(target)
@@ -96,10 +111,55 @@ func TestC48(t *testing.T) {
 			rt.Fatalf("rig: %v", err)
 		}
 		defer c.Close()
-		fmt.Fprintf(c, "GET %s HTTP/1.1\r\nHost: example.org\r\n\r\n", target)
+		method := "GET"
+		switch reqKind {
+		case "get":
+			fmt.Fprintf(c, "GET %s HTTP/1.1\r\nHost: example.org\r\n\r\n", target)
+		case "post":
+			method = "POST"
+			fmt.Fprintf(c, "POST %s HTTP/1.1\r\nHost: example.org\r\nContent-Length: 4\r\n\r\nbody", target)
+		case "post-expect":
+			method = "POST"
+			fmt.Fprintf(c, "POST %s HTTP/1.1\r\nHost: example.org\r\nExpect: 100-continue\r\nContent-Length: 4\r\n\r\n", target)
+		}
 		// read one response if any; then learn whether BFE closes
-		respBytes, m, closed, perr := readOneResponse(c, "GET", 8*time.Second)
-		if perr == nil && !closed {
+		respBytes, m, closed, perr := readOneResponse(c, method, 8*time.Second)
+		sentBody := false
+		if reqKind == "post-expect" && perr == nil && m != nil && m.Status == 100 {
+			// BFE solicits the body: legitimate only when somebody is going to read it, i.e.
+			// when the request is being proxied - not when a module answers the request itself
+			moduleAnswers := pi >= 0 && pi <= 2 && (verdict == bfe_module.BfeHandlerResponse || verdict == bfe_module.BfeHandlerRedirect || verdict == bfe_module.BfeHandlerClose)
+			if moduleAnswers {
+				wit["client_got"] = clipS(respBytes)
+				rec.Fail(rt, "interim-100-before-module-verdict:"+pname, wit, "%s verdict at %s: the client was sent \"100 Continue\" instead of exactly the module's answer", verdictName[verdict], pname)
+				return
+			}
+			c.Write([]byte("body"))
+			sentBody = true
+			var rb []byte
+			rb, m, closed, perr = readOneResponse(c, method, 8*time.Second)
+			respBytes = rb
+		}
+		if reqKind == "post-expect" && !sentBody && perr == nil && !closed {
+			// final response without a 100: like a client that gives up waiting, send the announced
+			// body anyway (RFC 7231 5.1.1), so that BFE is not left waiting for it until its read timeout
+			c.Write([]byte("body"))
+		}
+		if reqKind != "get" && perr == nil && !closed {
+			// after a request with a body the sentinel probe is not used (an unread body makes
+			// closing legitimate); just learn whether BFE closes by itself
+			waitClose := 300 * time.Millisecond
+			if verdict == bfe_module.BfeHandlerFinish || rfStop >= 0 {
+				waitClose = 6 * time.Second // a close is due: give it time (returns as soon as it happens)
+			}
+			more, cl := sys.ReadAllTimeout(c, waitClose)
+			closed = cl && len(more) == 0
+			if len(more) > 0 {
+				wit["after"] = clipS(more)
+				rec.Fail(rt, "garbage-after-response:"+pname, wit, "bytes after the response: %q", clipS(more))
+				return
+			}
+		} else if perr == nil && !closed {
 			// does BFE keep the connection open? a sentinel answers that deterministically
 			fmt.Fprintf(c, "GET %s/s HTTP/1.1\r\nHost: example.org\r\nConnection: close\r\n\r\n", target)
 			more, _ := sys.ReadAllTimeout(c, 8*time.Second)
@@ -140,6 +200,8 @@ func TestC48(t *testing.T) {
 			wantN := nSlots
 			if p == pname && stop < nSlots {
 				wantN = stop + 1
+			} else if p == "HandleRequestFinish" && rfStop >= 0 {
+				wantN = rfStop + 1
 			}
 			if len(es) != wantN {
 				if !rec.Fail(rt, "chain-length:"+p, wit, "at %s %d filters ran, want %d (chain %v)", p, len(es), wantN, names) {
@@ -238,6 +300,11 @@ func TestC48(t *testing.T) {
 				rec.Fail(rt, "finish-contacted-backend:"+pname, wit, "Finish verdict at %s but a backend was contacted", pname)
 				return
 			}
+		}
+		// the cooperating second point: whatever ended the request earlier, a Finish verdict in the
+		// HandleRequestFinish chain closes the connection after the reply
+		if rfStop >= 0 && verdict != bfe_module.BfeHandlerClose && !closed {
+			rec.Fail(rt, "finish-not-closed:HandleRequestFinish-after-"+verdictName[verdict]+"@"+pname, wit, "a filter at HandleRequestFinish returned Finish (after %s at %s) but the connection stayed open", verdictName[verdict], pname)
 		}
 	})
 }
